@@ -21,6 +21,13 @@ def model_check(cfgs, timeout=2400):
         states += r.distinct
         trans += r.generated
         runs.append("MC_Run%s: %d distinct / %d generated states, depth %d, %.1fs" % (cfg, r.distinct, r.generated, r.depth, r.wall))
+    if "Sched" in cfgs:
+        # non-vacuity: the variant of Fork.getState that releases the chunks as soon as the
+        # split's _stage_defs is known must violate StartsAfterDeps in the same configuration
+        r = vlib.run_tlc("MC_Run", "MC_RunEarly.cfg", workers=4, timeout=timeout)
+        if r.ok or r.violation != "StartsAfterDeps":
+            raise vlib.Infra("MC_RunEarly (chunks released on _stage_defs) does not violate StartsAfterDeps: the property is vacuous there (%s)" % r.violation)
+        runs.append("MC_RunEarly: StartsAfterDeps violated after %d states, as it must be (variant EarlyChunks = TRUE)" % r.generated)
     return states, trans, runs
 
 
@@ -122,6 +129,7 @@ def corpus(tier):
 COMMON_ASSUMPTIONS = [
     "expected jobs, arguments, outputs and dependencies are computed by TLC from spec/MroSem.tla for every program; the renderer lib/mro.py (abstract program -> .mro text) is trusted",
     "jobs are executed by the verif-tagged callback job manager (no process spawn); their table-driven stage code writes the same files and journal entries as a stage process (_log, _outs/_stage_defs, _complete)",
+    "in every second run split jobs publish _stage_defs and its journal entry one schedule step before they finish (as the Go adapter does); model behaviours with the JobDefs action are replayed that way",
     "the driver owns the run loop (RefreshState, GetState, CheckHeartbeats, StepNodes as in cmd/mrp/runloop.go) and interleaves job begin/end between and inside loop iterations according to the schedule",
     "verdicts come from spec/PsTrace.tla monitors evaluated by TLC on StageBegin/StageEnd events emitted by the stage code itself and on the final state",
 ]
